@@ -267,7 +267,7 @@ pub fn render_varied(ch: &mut Choices, ag: &AG, kind: YKind) -> (String, YLayout
     let mut declared = vec![false; nt];
     for t in 0..nt {
         let must = !used_in_prods[t] && !ag.avoid_insert.contains(&t) && !ag.implicit_tokens.contains(&t);
-        declared[t] = must || w.ch.chance(1, 3);
+        declared[t] = must || ag.declare_all || w.ch.chance(1, 3);
     }
     let bare_ok: Vec<bool> = (0..nt)
         .map(|t| declared[t] && is_ident(&ag.tokens[t]) && !rule_names.contains(&ag.tokens[t].as_str()))
